@@ -11,10 +11,15 @@ for m in muts:
         continue
     path = os.path.join(repo, m["file"])
     orig = open(path).read()
-    if orig.count(m["old"]) != 1:
-        print("MUTANT %s: pattern occurs %d times, skipped" % (m["name"], orig.count(m["old"])))
+    edits = m.get("edits") or [{"old": m["old"], "new": m["new"]}]
+    bad = [e for e in edits if orig.count(e["old"]) != 1]
+    if bad:
+        print("MUTANT %s: a pattern does not occur exactly once, skipped" % m["name"])
         continue
-    open(path, "w").write(orig.replace(m["old"], m["new"]))
+    mutated = orig
+    for e in edits:
+        mutated = mutated.replace(e["old"], e["new"])
+    open(path, "w").write(mutated)
     try:
         env = dict(os.environ, VERIF_REPO=repo)
         p = subprocess.run(["./check", prop], cwd=root, env=env, capture_output=True, text=True)
